@@ -14,13 +14,12 @@
   here is `iter_eq_spec_daily_partial`, `iter_eq_spec_weekly_partial` and
   `iter_eq_spec_yearly_monthly_partial`: the four calendar frequencies DAILY, WEEKLY, MONTHLY, YEARLY
   with any INTERVAL ≥ 1, BYMONTH, BYMONTHDAY, BYYEARDAY, plain BYDAY (any BYDAY for DAILY / WEEKLY,
-  where nth members are demoted), BYHOUR, BYMINUTE, BYSECOND, BYSETPOS (DAILY / MONTHLY / YEARLY; not
-  WEEKLY, see D-C01e), the defaults taken from the start, COUNT, UNTIL (for WEEKLY: UNTIL not before
+  where nth members are demoted), BYHOUR, BYMINUTE, BYSECOND, BYSETPOS (DAILY / MONTHLY / YEARLY; WEEKLY
+  only when the start is on the week start, see D-C01e), the defaults taken from the start, COUNT, UNTIL (for WEEKLY: UNTIL not before
   the start).  Missing: the three sub-daily frequencies (the model skips empty periods, so the
   refinement is not period-by-period), the three computed masks (BYWEEKNO, nth BYDAY, BYEASTER — for
   the latter two the mask lemmas `nwdaymask_marks_nth_weekdays` (MONTHLY) and
-  `eastermask_marks_easter_offsets` are proved but not yet wired into the refinement) and
-  WEEKLY + BYSETPOS on a week start.  Everything else below — including
+  `eastermask_marks_easter_offsets` are proved but not yet wired into the refinement).  Everything else below — including
   `iter_strictMono` for all seven frequencies — is proved for ALL rules / all argument sets, with no
   `Supported` hypothesis (so also inside the known-defect classes).
 -/
@@ -284,7 +283,8 @@ theorem iter_eq_spec_yearly_monthly_partial (a : Args) (r : Rule) (ya : YMArgs a
 
 /-- **`iter_eq_spec`, proved portion, WEEKLY**: INTERVAL ≥ 1, week start 0..6, valid start, UNTIL (if
     any) not before the start, any BYMONTH / BYMONTHDAY (members ≠ 0) / BYYEARDAY / BYDAY — or none, in
-    which case the weekday is the start's —, any BYHOUR / BYMINUTE / BYSECOND, any COUNT: exactly the
+    which case the weekday is the start's —, any BYHOUR / BYMINUTE / BYSECOND, BYSETPOS when the start
+    falls on the week start (exactly the complement of the defect class D-C01e), any COUNT: exactly the
     specification's recurrence set (whole weeks from the week start; the model's first period starts
     at the start's own day, and the days it leaves out lie before the start). -/
 theorem iter_eq_spec_weekly_partial (a : Args) (r : Rule) (wa : WeeklyArgs a) (h : construct a = .ok r)
@@ -309,7 +309,11 @@ example : DailyArgs { freq := 3, dtstart := dt 2024 2 28 9 30, interval := 3, by
 -- a WeeklyArgs instance: every 2nd week on Tuesday and Thursday, weeks starting on Sunday
 example : WeeklyArgs { freq := 2, dtstart := dt 2024 2 28 9 30, interval := 2, wkst := some 6,
                        byweekday := some [(1, 0), (3, 0)], count := some 5 } :=
-  ⟨⟨Or.inl rfl, by decide, by decide, rfl, rfl, by intro x hx; simp at hx⟩, rfl, rfl, by decide,
+  ⟨⟨Or.inl rfl, by decide, by decide, rfl, rfl, by intro x hx; simp at hx⟩, rfl, Or.inl rfl, by decide,
+   by intro u hu; simp at hu⟩
+-- … and with BYSETPOS when the start (Mon 2024-02-26) is the week start: the last of TU/TH of every week
+example : WeeklyArgs { freq := 2, dtstart := dt 2024 2 26 9 30, byweekday := some [(1, 0), (3, 0)], bysetpos := some [-1] } :=
+  ⟨⟨Or.inl rfl, by decide, by decide, rfl, rfl, by intro x hx; simp at hx⟩, rfl, Or.inr (by decide), by decide,
    by intro u hu; simp at hu⟩
 -- a YMArgs instance: the 31st of every 2nd month from 2024-01-31 (months without a 31st are skipped, never coerced)
 example : YMArgs { freq := 1, dtstart := dt 2024 1 31 8, interval := 2, count := some 3 } :=
